@@ -24,6 +24,7 @@ Spec == Init /\ [][Next]_vars
 Obs(tok) == [done |-> tok.done, err |-> tok.err, ret |-> tok.ret, end |-> IF tok.done THEN tok.off ELSE 0]
 ResetLikeNew == phase = 2 => Obs(a) = Obs(b)
 ResetHoldsNothing == phase = 2 /\ n = 0 => (b.stack = <<Level0>> /\ b.obj = NoValue)
+NoLostChild == b.done => b.obj = NoValue       \* a call never returns holding a completed child in its locals
 Trichotomy == b.done => \/ (b.err = "success" /\ b.ret.t # "none") \/ (b.err # "success" /\ b.ret.t = "none")
 StackBound == Len(b.stack) <= MaxDepth
 EscOnly == (~b.done /\ Top(b).st = "string") => (b'.done \/ Top(b').st # "string" \/ phase' # phase)
